@@ -1,11 +1,12 @@
 SPECIFICATION Spec
 CONSTANTS
-  Pairs <- PairsS
-  FamC <- Small
-  FamS <- Small
+  Pairs <- PairsSq
+  FamC <- Five
+  FamS <- Five
   FamD <- Tiny
   FamO <- Tiny
   Dump = TRUE
 INVARIANT RefShape
+INVARIANT ImplAgreesOffHazards
 INVARIANT Publish
 CHECK_DEADLOCK FALSE
